@@ -11,7 +11,9 @@ HERE = os.path.dirname(os.path.abspath(__file__))
 ROOT = os.path.dirname(HERE)
 
 OWNERS = {
-    "slab.hpp": ["C02", "C01", "C03", "C04", "C05"], "rbtree.hpp": ["C06", "C07"], "interval_tree.hpp": ["C07"],
+    # slab: the five checks run one pipeline and differ in attribution only; C05 runs the superset (TSan witness), and a
+    # rejection it leaves to one of its siblings ("rejection owned by C0x") counts as detected by that sibling
+    "slab.hpp": ["C05"], "rbtree.hpp": ["C06", "C07"], "interval_tree.hpp": ["C07"],
     "pairing_heap.hpp": ["C08"], "rcu_radixtree.hpp": ["C09", "C10", "C16"], "qs.hpp": ["C11", "C12"],
     "spinlock.hpp": ["C12"], "mutex.hpp": ["C12"], "vector.hpp": ["C13", "C16"], "small_vector.hpp": ["C13", "C16"],
     "dyn_array.hpp": ["C13", "C16"], "stack.hpp": ["C13"], "list.hpp": ["C13", "C16"], "hash_map.hpp": ["C14", "C16"],
@@ -103,6 +105,11 @@ def run_one(job, tier):
             if r.returncode == 1:
                 rec["outcome"] = "DETECTED"
                 rec["by"] = pid
+                return rec
+            foreign = re.findall(r"rejection owned by (C\d\d) \(clause (\w+)\)", r.stdout)
+            if r.returncode == 0 and foreign:
+                rec["outcome"] = "DETECTED"
+                rec["by"] = foreign[0][0] + " (sibling clause " + foreign[0][1] + ")"
                 return rec
             if r.returncode != 0:
                 rec["outcome"] = "INFRA"
